@@ -247,3 +247,13 @@ Proof.
   intros E Hs H. destruct (step_split a r sep keep ps E Hs H) as [L Hp]. split; [exact L|].
   eapply Forall_impl; [|exact Hp]. intros p [G [T _]]. split; assumption.
 Qed.
+
+(* add_period on any text in normal form, exactly *)
+Theorem add_period_flat_lem t p : good t -> exists v, add_period t p = Ok v /\ good v /\
+  top_markup v = top_markup t /\ flat v = add_period_flat (top_markup t) (flat t) p.
+Proof.
+  intro G. assert (E : exact t (top_markup t, flat t)) by (split; [exact G|split; reflexivity]).
+  assert (Hex : exists v, add_period t p = Ok v).
+  { unfold add_period. destruct (_ && _); [|eauto]. destruct (append_flat_x t (RStr p) (proj2 G) eq_refl) as [v [Hv _]]. eauto. }
+  destruct Hex as [v Hv]. exists v. split; [exact Hv|]. exact (step_addperiod t v _ p E Hv).
+Qed.
